@@ -96,3 +96,37 @@ check("C16", "model_checking",
       "model; run on the OS build (the in-process transport panics on wrong-kind references by design of its enum).",
       "TLC model checking of SideTables.tla + replay of every decode case + seeded mutation fuzzing",
       "DESIGN.md 3.6, 6 (C16)")
+check("C02", "model_checking",
+      "Transport.tla (one action per system call of send and recv; dedicated socket per fragmented message) is checked "
+      "exhaustively by TLC for every interleaving of up to 3 senders x up to 2 messages x up to 3 packets against a "
+      "receiver that is eager, polling (try_recv) or timed: Whole, AtMostOnce, RealTimeFIFO (a send that returned before "
+      "another began is delivered first), AcceptedDelivered, Terminates. TLC random walks through the same model are "
+      "executed on the real crate: sender threads and spawned sender processes and the receiving thread are held at "
+      "their system-call hooks and released one call at a time in exactly the model's order, so each interleaving is "
+      "forced rather than hoped for; receive results and delivery order must equal the model's.",
+      "Schedules executed on real code are a sample (quick ~700, thorough several thousand) of the exhaustively checked "
+      "model; send buffer 4096 via the override hook; a schedule the code cannot follow (different system-call sequence) is "
+      "counted as unmatched and judged only by the property-level oracle.",
+      "TLC exhaustive model checking of Transport.tla + gated replay of TLC-generated interleavings on real threads/processes",
+      "DESIGN.md 3.3, 4.4, 6 (C02)")
+check("C10", "model_checking",
+      "Transport.tla with the receiver's O_NONBLOCK flag, poll and the sleeping states of recvmsg/poll: BlockingRestored, "
+      "BlockingNeverEmpty, no missed message, for plans mixing recv/try_recv/try_recv_timeout against senders that send "
+      "1..3 packets or just drop, before/during/after each call (exhaustive in TLC). Schedules are replayed with gating; a "
+      "timed receive that the model ends by readiness gets 2 s and must return early, one that the model lets expire gets "
+      "0..20 ms and must not say 'empty' before floor(d) ms; a try_recv observed asleep in the kernel is a violation.",
+      "Timing uses the receiving thread's own monotonic clock only; durations up to 2 s; the mutant RestoreBlocking=FALSE "
+      "violates BlockingRestored in the model.",
+      "TLC exhaustive model checking of Transport.tla + gated replay with timing floors",
+      "DESIGN.md 3.3, 6 (C10)")
+check("C12", "fault_enumeration",
+      "Transport.tla with Kill(s) enabled between any two system calls of a sender process (exhaustive in TLC, shapes up "
+      "to 6 packets, with and without a surviving sender, observer blocking or polling): CrashSafe = Whole + "
+      "DiscOnlyWhenDone + AcceptedDelivered + Terminates. Schedules containing the kill are replayed: the victim is a "
+      "spawned process held at its hooks and SIGKILLed exactly there; the receiver must see every completed message "
+      "intact, the interrupted one intact or as a non-disconnect error, 'disconnected' only without survivors, and must "
+      "not wait forever.",
+      "Kill points are the hook sites (before each socketpair/sendmsg/send/close of the sending path); observers here are "
+      "recv and try_recv (select/router observers: C06/C07).",
+      "TLC exhaustive model checking with crash action + gated replay killing a real process at each chosen boundary",
+      "DESIGN.md 3.3, 6 (C12)")
